@@ -13,7 +13,7 @@ use crate::naming::sniffing::NetSniffing;
 use crate::oauth2::core::OAuth2Manager;
 use crate::raft::cluster::route::RaftRequestRoute;
 use crate::raft::filestore::core::FileStore;
-use crate::raft::filestore::raftapply::StateApplyManager;
+use crate::raft::filestore::raftapply::{StateApplyManager, StateApplyRequest};
 use crate::raft::filestore::raftdata::RaftDataHandler;
 use crate::raft::filestore::raftindex::RaftIndexManager;
 use crate::raft::filestore::raftlog::RaftLogManager;
@@ -105,6 +105,7 @@ pub async fn config_factory(sys_config: Arc<AppSysConfig>) -> anyhow::Result<Fac
         apply_manager.clone(),
     ));
 
+    let apply_manager_addr = apply_manager.clone();
     let store = Arc::new(FileStore::new(
         sys_config.raft_node_id.to_owned(),
         index_manager,
@@ -241,7 +242,15 @@ pub async fn config_factory(sys_config: Arc<AppSysConfig>) -> anyhow::Result<Fac
             ));
         }
     }
-    Ok(factory.init().await)
+    let factory_data = factory.init().await;
+    // StateApplyManager restores the state machine (last snapshot + log suffix) into the actors when
+    // it is injected, and keeps its mailbox closed (ctx.wait) until that is done. This round trip is
+    // therefore answered only after the node has its state back; nothing may be served before that:
+    // a config publish, for one, takes its history id from the counter that is being restored.
+    apply_manager_addr
+        .send(StateApplyRequest::GetLastAppliedLog)
+        .await??;
+    Ok(factory_data)
 }
 
 pub fn build_share_data(factory_data: FactoryData) -> anyhow::Result<Arc<AppShareData>> {
